@@ -261,6 +261,11 @@ func builtinCalls(x *ctx, prop string) {
 		"gen-base-first": gen.Merge(core, map[string]string{"gbase.json": gbase.JSON(), "gsub.json": gsub.JSON()}),
 		"gen-sub-first":  gen.Merge(core, map[string]string{"zz_gbase.json": gbase.JSON(), "aa_gsub.json": gsub.JSON()}),
 	}
+	// generated files per configuration name (replay files carry these; the core files are implied)
+	extraCfg := map[string]map[string]string{
+		"gen-base-first": {"gbase.json": gbase.JSON(), "gsub.json": gsub.JSON()},
+		"gen-sub-first":  {"zz_gbase.json": gbase.JSON(), "aa_gsub.json": gsub.JSON()},
+	}
 	for _, n := range []string{"gen-base-first", "gen-sub-first"} {
 		x.pool.NewCfgDir(n, genCfgs[n])
 		genFor(n, ref.Load(genCfgs[n]), []recvKind{{"Gbase", "Gbase.new", nil}, {"Gsub", "Gsub.new", nil}}, map[string]bool{"Gbase": true, "Gsub": true})
@@ -298,6 +303,7 @@ func builtinCalls(x *ctx, prop string) {
 	}
 	cgFiles := gen.Merge(core, map[string]string{"cg.json": cg.JSON()})
 	x.pool.NewCfgDir("cg-all", cgFiles)
+	extraCfg["cg-all"] = map[string]string{"cg.json": cg.JSON()}
 	cgRef := ref.Load(cgFiles)
 	for i := range specs {
 		name := fmt.Sprintf("m%d", i)
@@ -376,6 +382,7 @@ func builtinCalls(x *ctx, prop string) {
 		}
 		kwFiles := gen.Merge(core, map[string]string{"kwc.json": kw.JSON()})
 		x.pool.NewCfgDir("kw-all", kwFiles)
+		extraCfg["kw-all"] = map[string]string{"kwc.json": kw.JSON()}
 		for _, km := range kms {
 			K := len(km.order)
 			nv := 1
@@ -582,7 +589,8 @@ func builtinCalls(x *ctx, prop string) {
 		for i := range vs {
 			if i == 0 {
 				r.Report(s, fmt.Sprintf("%s: %s", s, v.desc),
-					ReplayDoc{Cfg: "inline", Files: ecases[v.idx].Files, Argv: ecases[v.idx].Argv, Observed: head(res[v.idx].Stdout, 800), Expected: v.desc, Note: "configuration: the 21 core files of /repo/test/.ti-config"})
+					ReplayDoc{Cfg: "inline", CfgFiles: extraCfg[ecases[v.idx].Cfg], Files: ecases[v.idx].Files, Argv: ecases[v.idx].Argv, Observed: head(res[v.idx].Stdout, 800), Expected: v.desc,
+						Note: "configuration: the listed files (if any) plus the 21 core configuration files of /repo/test/.ti-config"})
 			} else {
 				r.Report(s, "", nil)
 			}
